@@ -43,7 +43,7 @@ def parseAll : Nat → List String → Option (List Arg)
   | 0, _ => none
   | _, [] => some []
   | f + 1, toks => do
-    let (a, r) ← parseArg (toks.length + 1) toks
+    let (a, r) ← parseArg (4 * toks.length + 4) toks
     let as ← parseAll f r
     pure (a :: as)
 
